@@ -22,7 +22,10 @@ theorem notify_prog_eq :
 /-- The blocking wrapper composes the notifier with the plain calls as assumed. -/
 theorem source_facts :
     Gen.blockingWaitThenRead = true ∧ Gen.blockingPublishThenSet = true ∧
-    Gen.blockingCloseNotifierFirst = true ∧ Gen.blockingStartsAtNextOffset = true := by decide
+    Gen.blockingCloseNotifierFirst = true ∧ Gen.blockingStartsAtNextOffset = true ∧
+    -- the typed wrapper (typed_blocking.go) composes the same way
+    Gen.typedBlockingWaitThenRead = true ∧ Gen.typedBlockingPublishThenSet = true ∧
+    Gen.typedBlockingCloseNotifierFirst = true ∧ Gen.typedBlockingStartsAtNextOffset = true := by decide
 
 /-- "return immediately when the offset is below NextOffset or relative": the first
 instruction returns nil without touching shared state (relative offsets are negative and the
@@ -144,6 +147,60 @@ example :
   decide
 
 end Klev.C18
+
+/-! ### Non-vacuity
+
+The theorems at the concrete run of `Klev/Proofs/NotifyProofs.lean`: `Wait(5)` on a notifier at 0
+parks on channel 0 (`demoPark`), then `Set(10)` runs (`demoSet`). -/
+section NonVacuity
+open Klev.Notify
+
+example := Klev.C18.immediate (initSt 10) { kind := .wait 5 } 5 rfl rfl rfl (by decide)
+-- the parked waiter stays parked when a setter is spawned and when that setter takes its first
+-- step (`recvBarrier`, not `close(b)`)
+example := Klev.C18.stays_parked (run (init 0) demoPark) (.spawn (.set 10)) 0
+  { kind := .wait 5, pc := 6, b := some 0, ok := true } (by decide)
+  ⟨5, 0, rfl, rfl, rfl, by decide, rfl⟩ rfl (fun _ _ he => nomatch he) (by decide)
+example := Klev.C18.stays_parked (run (init 0) (demoPark ++ [.spawn (.set 10)])) (.step 1) 0
+  { kind := .wait 5, pc := 6, b := some 0, ok := true } (by decide)
+  ⟨5, 0, rfl, rfl, rfl, by decide, rfl⟩ rfl
+  (by
+    intro j u he hj _ hpc
+    cases he
+    have h1 : (run (init 0) (demoPark ++ [.spawn (.set 10)])).ths[1]? = some { kind := .set 10 } := by decide
+    rw [h1] at hj
+    cases hj
+    exact absurd hpc (by decide))
+  (by decide)
+-- after the Set has finished the waiter (offset 5 < 10) is enabled and returns nil
+example := Klev.C18.no_lost_wakeup 0 (demoPark ++ demoSet) 0
+  { kind := .wait 5, pc := 6, b := some 0, ok := true } 5 (by decide) rfl rfl rfl
+  (by
+    have hths : (run (init 0) (demoPark ++ demoSet)).ths =
+        [{ kind := .wait 5, pc := 6, b := some 0, ok := true },
+         { kind := .set 10, pc := 5, b := some 0, ok := true, res := some .none_ }] := by decide
+    intro j u hj hd
+    rw [hths] at hj
+    match j, hj with
+    | 0, hj => cases hj; exact Or.inl ⟨5, rfl⟩
+    | 1, hj => cases hj; exact absurd hd (by decide)
+    | j + 2, hj => exact absurd hj (by simp))
+  (by decide)
+-- the setter holding channel 0 (after its `recvBarrier`) closes it within three steps
+example := Klev.C18.setter_closes 0 (demoPark ++ [.spawn (.set 10), .step 1]) 1
+  { kind := .set 10, pc := 1, b := some 0, ok := true } 0 (by decide)
+  ⟨⟨10, rfl⟩, rfl, by decide, by decide, rfl⟩
+example := Klev.C18.parked_not_passed 0 demoPark 0 { kind := .wait 5, pc := 6, b := some 0, ok := true } 5 0
+  (by decide) rfl (Or.inr (Or.inr rfl)) rfl rfl rfl
+example := Klev.C18.cancel_returns (initSt 0) { kind := .wait 5, pc := 6, b := some 0, ok := true, ctxDone := true }
+  5 0 rfl rfl rfl rfl rfl (by decide)
+example := Klev.C18.wait_after_close_fails { next := 0, barrier := .closed, closedCh := [0], fresh := 1 } 5 rfl
+  (by decide)
+-- the freshly spawned setter is unfinished and not parked: some thread can move
+example := Klev.C18.no_deadlock 0 (demoPark ++ [.spawn (.set 10)]) 1 { kind := .set 10 } (by decide) rfl
+  (fun ⟨_, _, hk, _⟩ => nomatch hk)
+
+end NonVacuity
 
 #print axioms Klev.C18.notify_prog_eq
 #print axioms Klev.C18.source_facts
